@@ -1,3 +1,149 @@
-(* mutators, binary operations and spec oracles (filled in as properties are added) *)
+(* mutators, binary operations: the model side of harness/src/ops3.rs *)
 open Model
-let run (f : string array) : string option = ignore f; None
+
+let rec pos_of_int i = if i = 1 then XH else if i land 1 = 0 then XO (pos_of_int (i lsr 1)) else XI (pos_of_int (i lsr 1))
+let n_of_int i = if i = 0 then N0 else Npos (pos_of_int i)
+let rec int_of_pos p = match p with XH -> 1 | XO q -> 2 * int_of_pos q | XI q -> 2 * int_of_pos q + 1
+let int_of_n n = match n with N0 -> 0 | Npos p -> int_of_pos p
+let int_of_nat n = let rec go n acc = match n with O -> acc | S m -> go m (acc + 1) in go n 0
+let hexval c = match c with '0'..'9' -> Char.code c - 48 | 'a'..'f' -> Char.code c - 87 | 'A'..'F' -> Char.code c - 55 | _ -> failwith "hex"
+let unhex s = if s = "-" || s = "~" then [] else
+  let n = String.length s / 2 in
+  List.init n (fun i -> n_of_int (hexval s.[2*i] * 16 + hexval s.[2*i+1]))
+let hex (l : n list) = if l = [] then "-" else String.concat "" (List.map (fun c -> Printf.sprintf "%02x" (int_of_n c)) l)
+let ohex = function None -> "~" | Some l -> hex l
+let opt_arg s = if s = "~" then None else Some (unhex s)
+let tab = String.concat "\t"
+let comma = String.concat ","
+let bar = String.concat "\t|\t"
+
+exception Panic
+let get = function Some x -> x | None -> raise Panic
+
+let split_op op = match String.index_opt op ':' with
+  | Some k -> (String.sub op 0 k, Some (String.sub op (k + 1) (String.length op - k - 1)))
+  | None -> (op, None)
+
+let snapshot abs b =
+  let sch = if abs then Some (abs_scheme b) else get_scheme b in
+  tab [hex b; "-"; ohex sch; ohex (get_authority b); hex (get_path b); ohex (get_query b); ohex (get_fragment b)]
+
+(* one mutation on a reference buffer *)
+let apply_op abs (b : n list) (op : string) : n list =
+  let (code, arg) = split_op op in
+  let oarg = match arg with Some a -> opt_arg a | None -> None in
+  let barg = match oarg with Some x -> x | None -> [] in
+  let with_auth f = (match authority_mut b with Some h -> (get (f h)).h_data | None -> b) in
+  let with_path f = (get (f (path_mut b))).pm_buf in
+  match code with
+  | "ss" -> if abs then get (abs_set_scheme b barg) else get (set_scheme b oarg)
+  | "sa" -> get (set_authority b oarg)
+  | "sp" -> get (set_path b barg)
+  | "sq" -> get (set_query b oarg)
+  | "sf" -> get (set_fragment b oarg)
+  | "au" -> with_auth (fun h -> set_userinfo h oarg)
+  | "ah" -> with_auth (fun h -> set_host h barg)
+  | "ap" -> with_auth (fun h -> set_port h oarg)
+  | "pp" -> with_path (fun h -> pm_push h barg)
+  | "po" -> with_path pm_pop
+  | "pc" -> with_path pm_clear
+  | "ps" -> with_path (fun h -> pm_symbolic_push_pub h barg)
+  | "pa" -> with_path (fun h -> pm_symbolic_append h (seg_texts barg))
+  | "pn" -> with_path pm_normalize
+  | _ -> failwith "op"
+
+let handle_op (h : pm) (op : string) : pm =
+  let (code, arg) = split_op op in
+  let barg = match arg with Some a -> (match opt_arg a with Some x -> x | None -> []) | None -> [] in
+  match code with
+  | "pp" -> get (pm_push h barg)
+  | "po" -> get (pm_pop h)
+  | "pc" -> get (pm_clear h)
+  | "ps" -> get (pm_symbolic_push_pub h barg)
+  | "pa" -> get (pm_symbolic_append h (seg_texts barg))
+  | "pn" -> get (pm_normalize h)
+  | _ -> failwith "op"
+
+let view_str v = hex v ^ "/" ^ comma (List.map hex (seg_texts v))
+let ops_from (f : string array) k = Array.to_list (Array.sub f k (Array.length f - k))
+let is_abs_kind k = (k = "uri" || k = "iri")
+
+let run (f : string array) : string option =
+  match f.(0) with
+  | "ops" | "set" ->
+    let abs = is_abs_kind f.(1) in
+    let b = ref (unhex f.(2)) in
+    let out = ref [snapshot abs !b] in
+    (try List.iter (fun op -> b := apply_op abs !b op; out := snapshot abs !b :: !out) (ops_from f 3)
+     with Panic -> out := "PANIC" :: !out);
+    Some (bar (List.rev !out))
+  | "pathops" when f.(1) = "upath" || f.(1) = "ipath" ->
+    (try
+      let b = ref (unhex f.(2)) in
+      let views = List.map (fun op -> b := (handle_op (pm_from_path !b) op).pm_buf; view_str !b) (ops_from f 3) in
+      Some (bar [tab views; tab [hex !b; "-"]])
+     with Panic -> Some "PANIC")
+  | "pathops" ->
+    (try
+      let abs = is_abs_kind f.(1) in
+      let h = ref (path_mut (unhex f.(2))) in
+      let views = List.map (fun op -> h := handle_op !h op; view_str (get (pm_view !h))) (ops_from f 3) in
+      Some (bar [tab views; snapshot abs (!h).pm_buf])
+     with Panic -> Some "PANIC")
+  | "authops" ->
+    (try
+      let abs = is_abs_kind f.(1) in
+      (match authority_mut (unhex f.(2)) with
+       | None -> Some "NOAUTH"
+       | Some h0 ->
+         let h = ref h0 in
+         let views = List.map (fun op ->
+           let (code, arg) = split_op op in
+           let oarg = match arg with Some a -> opt_arg a | None -> None in
+           let barg = match oarg with Some x -> x | None -> [] in
+           h := get (match code with "au" -> set_userinfo !h oarg | "ah" -> set_host !h barg | "ap" -> set_port !h oarg | _ -> failwith "op");
+           let v = view !h in
+           let sl r = slice v r in
+           String.concat "/" [hex v; ohex (Option.map sl (find_user_info v O)); hex (sl (find_host v O)); ohex (Option.map sl (find_port v O))]) (ops_from f 3) in
+         Some (bar [tab views; hex (view !h); snapshot abs (!h).h_data]))
+     with Panic -> Some "PANIC")
+  | "norm" ->
+    (try
+      let p = unhex f.(2) in
+      let n = get (path_normalized p) in
+      let nn = get (path_normalized n) in
+      let once = get (pb_apply pm_normalize p) in
+      let twice = get (pb_apply pm_normalize once) in
+      Some (tab [hex n; "-"; hex nn; comma (List.map hex (nsegs p)); hex once; "-"; hex twice])
+     with Panic -> Some "PANIC")
+  | "refnorm" ->
+    (try
+      let abs = is_abs_kind f.(1) in
+      let b = unhex f.(2) in
+      let once = (get (pm_normalize (path_mut b))).pm_buf in
+      let twice = (get (pm_normalize (path_mut once))).pm_buf in
+      Some (bar [snapshot abs b; snapshot abs once; snapshot abs twice])
+     with Panic -> Some "PANIC")
+  | "resolve" ->
+    (match resolve (unhex f.(3)) (unhex f.(2)) with Some r -> Some (hex r) | None -> Some "PANIC")
+  | "relto" ->
+    (try
+      let a = unhex f.(2) and b = unhex f.(3) in
+      let r = get (relative_to a b) in
+      let back = (match resolve r b with Some x -> hex x | None -> "PANIC") in
+      let eq = (match resolve r b with Some x -> (match eq_ref x a with Some true -> "1" | Some false -> "0" | None -> "P") | None -> "P") in
+      Some (tab [hex r; "-"; back; eq])
+     with Panic -> Some "PANIC")
+  | "suffix" ->
+    (match ref_suffix (unhex f.(2)) (unhex f.(3)) with
+     | None -> Some "PANIC"
+     | Some None -> Some "NONE"
+     | Some (Some ((s, q), fr)) -> Some (tab [hex s; "-"; ohex q; ohex fr]))
+  | "psuffix" ->
+    (match path_suffix (unhex f.(2)) (unhex f.(3)) with
+     | None -> Some "PANIC"
+     | Some None -> Some "NONE"
+     | Some (Some s) -> Some (tab [hex s; "-"]))
+  | "base" ->
+    let b = ref_base (unhex f.(2)) in Some (Printf.sprintf "0:%d" (List.length b))
+  | _ -> None
